@@ -80,6 +80,21 @@ func gen(r *hx.Rand, n int, tier string, emit func(string), st *hx.Stats) {
 			st.Inc("tamper")
 			emit(fmt.Sprintf("tamper %s %s %d %d %d", hx.H(randBytes(c, 6)), hx.H(append([]byte{'x'}, randBytes(c, 30)...)), c.Intn(3), c.Intn(90), 1+c.Intn(255)))
 		case 9:
+			if c.Chance(1, 2) {
+				// a token issued under ANOTHER key must be rejected; keys that share a long prefix / suffix
+				st.Inc("xkey")
+				base := append([]byte("a-rather-long-shared-secret-prefix-0123456789/"), randBytes(c, 4)...)
+				k1 := append(append([]byte{}, base...), randBytes(c, 6)...)
+				k2 := append(append([]byte{}, base...), randBytes(c, 6)...)
+				switch c.Intn(4) {
+				case 0:
+					k1, k2 = randBytes(c, 8), randBytes(c, 8)
+				case 1:
+					k2 = append(append([]byte{}, k1...), 'x')
+				}
+				emit(fmt.Sprintf("xkey %s %s %s", hx.H(k1), hx.H(k2), hx.H(append([]byte{'p'}, randBytes(c, 20)...))))
+				continue
+			}
 			st.Inc("full")
 			emit(fmt.Sprintf("full %s %s %s", hx.H(randBytes(c, 6)), hx.H(randBytes(c, 12)), hx.H(randBytes(c, 8))))
 		}
@@ -179,6 +194,22 @@ func exec(line string, st *hx.Stats) string {
 			return same + " rej"
 		}
 		return same + " acc " + hx.H(d2)
+	case "xkey":
+		k1, k2 := hx.MustUnH(f[1]), hx.MustUnH(f[2])
+		e1, err1 := encrypter.NewGCMEncrypter(string(k1))
+		e2, err2 := encrypter.NewGCMEncrypter(string(k2))
+		if err1 != nil || err2 != nil {
+			return "keyerr"
+		}
+		tok, err := encoder.NewTokenEncoder(e2, b64).Encode(hx.MustUnH(f[3]))
+		if err != nil {
+			return "encerr"
+		}
+		d, err := encoder.NewTokenEncoder(e1, b64).Decode(tok)
+		if err != nil {
+			return "rej"
+		}
+		return "acc " + hx.H(d)
 	case "full":
 		enc, err := encrypter.NewGCMEncrypter(string(hx.MustUnH(f[1])))
 		if err != nil {
